@@ -1,0 +1,26 @@
+//go:build verif
+
+package tsdb
+
+import (
+	"context"
+
+	"github.com/lindb/lindb/models"
+)
+
+// Verification export for property C07 (node crash recovery), several shards: runs the flush
+// checker's own doFlush for ONE request over several shards and several families per shard
+// (FlushMeta -> WaitFlushMetaCompleted -> for every shard: flushShard = FlushIndex ->
+// WaitFlushIndexCompleted -> for every family: family.Flush), exactly as a flush worker does after
+// taking the request from the channel. families[i] are the families of shards[i]. No behaviour is added.
+func VerifDoFlushShards(db Database, shards []Shard, families [][]DataFamily) {
+	ctx, cancel := context.WithCancel(context.Background())
+	defer cancel()
+	fc := newDataFlushChecker(ctx).(*dataFlushChecker)
+	fc.flushInFlight.Inc() // requestFlushJob's bookkeeping for the request that doFlush completes
+	req := &flushRequest{db: db, shards: map[models.ShardID]*flushShard{}}
+	for i, s := range shards {
+		req.shards[s.ShardID()] = &flushShard{shard: s, families: families[i]}
+	}
+	fc.doFlush(req)
+}
